@@ -123,13 +123,18 @@ def main(argv):
                 print("HARNESS-ERROR: budget used up before anything was found (%s)" % stopped)
                 return 2
         for mm in impl.HISTORY["repeat_mismatches"][:3]:
-            rep.violate("second-call-on-the-same-object-differs", {"rule": mm["rule"], "listing": mm["listing"]},
-                        {"result": mm["first_call"], "mode": [mm["mode"], mm["address_only"], mm["return"]]},
-                        {"result_of_second_perform_matching": mm["second_call_on_the_same_object"]}, model_agrees_with_spec=None)
+            try:
+                rep.violate("second-call-on-the-same-object-differs", {"rule": mm["rule"], "listing": mm["listing"]},
+                            {"result": mm["first_call"], "mode": [mm["mode"], mm["address_only"], mm["return"]]},
+                            {"result_of_second_perform_matching": mm["second_call_on_the_same_object"]}, model_agrees_with_spec=None)
+            except core.Enough:
+                break
         rep.dist["history:prelude-operations"] += impl.HISTORY["preludes"]
         rep.dist["history:operations-repeated-on-the-same-object"] += impl.HISTORY["repeats"]
+        rep.dist["history:operations-with-the-logger-at-DEBUG"] += impl.HISTORY.get("debug_level_operations", 0)
+        rep.dist["yaml-documents-written-with-anchors-and-aliases"] += impl.DUMPS[0] // 3
         # a broken obligation or tie: search harder for a concrete failing input
-        if (lean["broken"] or rep.disagreements) and not rep.violations and not stopped:
+        if (lean["broken"] or rep.disagreements) and len(rep.violations) == rep.n_known_violations and not stopped:
             t_run[0] = time.time()
             signal.setitimer(signal.ITIMER_REAL, 10, 10)
             try:
